@@ -179,12 +179,22 @@ def check_read(res, A, param, spec, rng):
         tags = tagset(spec, rl) + ['tensor' if tensor else 'components']
         product = etgen.is_product(spec['levels'][rl]['boxes'])
         res['observations'] += 1
+        it_arg, vars_arg, par_snap = list(req), list(want), dict(param)
         try:
             with common.Quiet():
-                data = A.read_data(param, it=list(req), vars=list(want), rl=rl,
+                data = A.read_data(param, it=it_arg, vars=vars_arg, rl=rl,
                                    restart=-1, split_per_it=False, skip_last=False,
                                    verbose=False)
-        except Exception as e:
+        except Exception as e_:
+            data, e = None, e_
+        if it_arg != list(req) or vars_arg != list(want) or param != par_snap:
+            common.add_violation(res, "read_data modifies the caller's it / vars list or param",
+                                 {"vars_before": list(want), "vars_after": vars_arg,
+                                  "it_before": list(req), "it_after": it_arg, "tags": tags})
+            param.clear()
+            param.update(par_snap)
+            continue
+        if data is None:
             if product:
                 lev = spec['levels'][rl]
                 common.add_violation(
